@@ -401,6 +401,10 @@ class Ctx:
                                 sink_locals.add(o[1][0])
             if ret_consumer:
                 sink_locals |= body.ret_carriers()
+                # short-circuit comparisons decide the returned constant through control flow
+                for b in body.blocks:
+                    if not b.cleanup and b.term[0] == 'sw' and b.term[1][0] in ('copy', 'move'):
+                        sink_locals.add(b.term[1][1][0])
             if not sink_locals:
                 continue
             # reads of each field
